@@ -40,8 +40,8 @@ LABELS = ["A", "B", "C", "a", "0", "S1", "zz", "Ab", "x_1", " q"]
 STREAMS_NOTE = ("Generator streams shared by all model-based campaigns: amplitudes dyadic (exact degeneracies), decimal, and weak "
                 "(x 2^-10..2^-24); 6-operator terms; inverse temperatures 0.5..400 (C09: 1e-3..1e3); every 3rd case may carry a "
                 "constant energy offset; optional power-of-two rescaling of the whole model; every 4th case of the near-degenerate "
-                "stream lifts a degeneracy by 1e-10..1e-4; both matrix-element builds (real, complex) in both tiers; minimised past "
-                "failures from corpus/<id>/ run first.")
+                "stream lifts a degeneracy by 1e-10..1e-4; both matrix-element builds (real, complex) in both tiers; every 3rd case runs "
+                "with OMP_NUM_THREADS=3; minimised past failures from corpus/<id>/ run first.")
 
 SCALE = [1.0]      # overall (power-of-two) energy scale of the model being generated
 
@@ -388,6 +388,7 @@ class CaseResult:
 
 def run_case(exe, script, variant="real", numeric=True, timeout=600, np=None, threads=1):
     res = CaseResult(script, variant)
+    res.threads = threads
     with tempfile.TemporaryDirectory(prefix="pmcase") as d:
         sp = os.path.join(d, "script.txt")
         cp = os.path.join(d, "case.txt")
@@ -413,16 +414,19 @@ def run_case(exe, script, variant="real", numeric=True, timeout=600, np=None, th
 
 
 def run_batch(scripts, variant="real", numeric=True, workers=None):
+    """every third case runs with OMP_NUM_THREADS=3 (the library's results must not depend on the number of OpenMP
+    threads; the thread count is part of the replay record)"""
     exe = pmlib.build_harness("pipe", variant)
     with ThreadPoolExecutor(workers or max(2, pmlib.NCPU - 2)) as ex:
-        return list(ex.map(lambda s: run_case(exe, s, variant, numeric), scripts))
+        return list(ex.map(lambda t: run_case(exe, t[1], variant, numeric, threads=3 if t[0] % 3 == 2 else 1),
+                           list(enumerate(scripts))))
 
 
 def collect(ctx, results, props, harness="pipe"):
     """Turn driver output into ctx.problems for the properties in `props`."""
     for res in results:
         ctx.evaluations += 1
-        rep = dict(harness=harness, variant=res.variant, script=res.script)
+        rep = dict(harness=harness, variant=res.variant, script=res.script, threads=getattr(res, "threads", 1))
         san = res.sanitizer()
         if res.aborted():
             last = [l for l in res.case.splitlines() if l.startswith("c ")]
@@ -468,7 +472,7 @@ def collect(ctx, results, props, harness="pipe"):
 
 def replay(ctx, rp):
     exe = pmlib.build_harness(rp.get("harness", "pipe"), rp.get("variant", "real"))
-    res = run_case(exe, rp["script"], rp.get("variant", "real"))
+    res = run_case(exe, rp["script"], rp.get("variant", "real"), threads=rp.get("threads", 1))
     print(res.case[-3000:])
     print(res.err[-1500:])
     print(res.pipe_out)
